@@ -23,7 +23,8 @@ if [ $C -ne 0 ]; then
   # a package may have failures that also occur on the unchanged tree (tsi1: TestGenerateIndexFile_Uvarint needs
   # testdata that is empty in git): the change passes "the existing tests" if the set of failing tests is the same
   grep -- '^--- FAIL' /tmp/pkgt_$$.txt | sed 's/ (.*//' | sort > /tmp/pkgt_with_$$.txt
-  git stash -q; go test -modfile=/tmp/mutkit/go.mod -count=1 $PKGS 2>&1 | grep -- '^--- FAIL' | sed 's/ (.*//' | sort > /tmp/pkgt_without_$$.txt; git stash pop -q
+  # (not git stash: the stash is shared between the worktrees of one repository)
+  git apply -R "$OUT/patch.diff"; go test -modfile=/tmp/mutkit/go.mod -count=1 $PKGS 2>&1 | grep -- '^--- FAIL' | sed 's/ (.*//' | sort > /tmp/pkgt_without_$$.txt; git apply "$OUT/patch.diff"
   echo "failing with the change: $(tr '\n' ' ' < /tmp/pkgt_with_$$.txt) | failing on the unchanged tree: $(tr '\n' ' ' < /tmp/pkgt_without_$$.txt)" >> "$LOG"
   if [ -s /tmp/pkgt_with_$$.txt ] && cmp -s /tmp/pkgt_with_$$.txt /tmp/pkgt_without_$$.txt; then C=0; echo "same failures as the unchanged tree: accepted" >> "$LOG"; fi
   rm -f /tmp/pkgt_with_$$.txt /tmp/pkgt_without_$$.txt
